@@ -18,7 +18,7 @@ ROWS = {
  "C05": ("zh `sweep` op (in-process, distinct-outcome accounting) + write watch; a third of the runs with the application's own callbacks chained behind the library's",
          "callback runs: all 1-/2-cut fragmentations of small responses, all 2^n subsets of one file, random k-cuts of larger ones, interrupted-then-retried transfers; files with byte-identical and one-byte chunks; 33-40 KB header fields (coarse fragmentations); HTTP/2 status line, earlier header blocks, blanks in boundaries"),
  "C06": ("h_hdrmut (in-process, memfd) on the OpenSSL and the bundled-SHA build; six ways of opening (fifth: every failing step followed by zck_clear_error and repeated; sixth: writer-side options set on the reading context first); images also behind a pristine copy / through a pipe",
-         "opens: every header byte x 255 values of the sample files through zck_init_read, lead (first samples: whole header) through the other ways; patched images through all; padded headers with a checksum "until the signatures"; bundled build with hashed header lengths swept across the SHA block sizes"),
+         "opens: every header byte x 255 values of the sample files through zck_init_read, lead (first samples: whole header) through the other ways; patched images through all; padded headers with a checksum 'until the signatures'; bundled build with hashed header lengths swept across the SHA block sizes"),
  "C07": ("h_hdrmut", "pin cases: every digest-string position x 256 byte values for all 4 types, lengths, cancelling-difference digests, refused re-pins, pins changed / the file rewritten in place between zck_validate_lead and the open, type pins beyond int, leads whose size wraps 2^64, type/length grids, orders, cross-file, pipe / FIFO / socket / offset presentations"),
  "C08": ("zh copy/match scripts + write watch + poke + setfd", "scenarios incl. validated-then-damaged sources, match-then-copy, re-opened descriptor between two-part copies, crafted index pairs, target on descriptor 2, zero-block chunks over stale bytes, first entry storing the frame of nothing, old file cut inside a chunk"),
  "C09": ("zh validation scripts, io log; zck_read_header -f / -c -f, unzck -c", "on-disk states x validation words; sparse files; empty mid-index chunks; repeated chunks (one occurrence damaged); another writer's layouts (unused header bytes, optional elements, first entry storing the frame of nothing); stale index checksums; validation through a pipe"),
